@@ -167,7 +167,7 @@ End Codec.
 (* ---- WHEN write and create_dir succeed (review r4, C12-2) and what create_dir leaves unchanged (C12-7).
    Proofs/LayeredFSOk.v; derived from the definitions alone, no well-formedness needed.  Every other positive theorem of this
    file is conditional on "fs_write .. = (S', FOk tt)"; these say when that happens. ---- *)
-From Mila Require Import Proofs.LayeredFSOk Proofs.LayeredFSOkReal.
+From Mila Require Import Proofs.LayeredFSOk Proofs.LayeredFSOkReal Proofs.LayeredFSRunFrame.
 
 (* the addressed location: the path string (loc = false) or its localisation (loc = true), parsed into plain components *)
 Theorem C12_addr_spec : forall S p loc s a,
@@ -230,6 +230,26 @@ Section WhenOk.
     (forall p loc, fs_exists S p loc = FOk true -> fs_exists S' p loc = FOk true) /\
     (forall p loc, fs_directory_exists S p loc = FOk true -> fs_directory_exists S' p loc = FOk true).
   Proof. exact (create_dir_frame decompress). Qed.
+
+  (* frame over the HISTORIES of the property's quantifier (fs_run: read / write / create_dir / queries / listings), any codec:
+     [op_elsewhere S pp o] = o is not a write addressed to pp (create_dir calls and everything else are unrestricted); along such
+     a history read p and file_exists p answer as before, and read-after-write survives it *)
+  Theorem C12_op_elsewhere_is : forall S pp o,
+    op_elsewhere S pp o <->
+    match o with OWrite q _ l => forall s qq tr, fs_addr S q l = FOk (s, (qq, tr)) -> qq <> pp | _ => True end.
+  Proof. intros S pp o. split; exact (fun H => H). Qed.       (* unfolding lemma *)
+  Theorem C12_run_keeps_read : forall os S p loc s a,
+    fs_addr S p loc = FOk (s, a) -> Forall (op_elsewhere S (fst a)) os ->
+    fs_read decompress (fs_run compress decompress S os) p loc = fs_read decompress S p loc /\
+    fs_file_exists (fs_run compress decompress S os) p loc = fs_file_exists S p loc.
+  Proof. exact (fs_run_keeps_read compress decompress). Qed.
+  Theorem C12_read_after_write_history : forall (dom : cfmt -> bytes -> Prop),
+    (forall f b c, dom f b -> compress f b = Ok c -> decompress f c = Ok b) ->
+    forall S p b loc S1 os,
+    fs_write compress S p b loc = (S1, FOk tt) -> dom (c_comp (conf S)) b ->
+    (forall s pp tr, fs_addr S p loc = FOk (s, (pp, tr)) -> Forall (op_elsewhere S pp) os) ->
+    fs_read decompress (fs_run compress decompress S1 os) p loc = FOk b.
+  Proof. exact (read_after_write_history compress decompress). Qed.
 End WhenOk.
 
 (* with the models of the real codecs, after fs_new, below 16 MiB: success depends on the path and the top layer only *)
@@ -258,6 +278,19 @@ Example C12_example_when_ok :
   fs_create_dir ok_fs [100; 47; 103; 47; 107] false = (ok_fs, FErr EIo) /\
   snd (fs_create_dir ok_fs [100; 47] false) = FOk tt /\ snd (fs_create_dir ok_fs [] false) = FOk tt.
 Proof. vm_compute. repeat split. Qed.
+(* a history with create_dir: write "d/n" = [7]; create_dir "d/k/"; create_dir "d/n/x" (fails: through the file); write "f/x"; list; read "d/n" *)
+Definition ok_history : list op :=
+  [OCreateDir [100; 47; 107; 47] false; OCreateDir [100; 47; 110; 47; 120] false; OWrite [102; 47; 120] [9] false;
+   OList [100] PAll false; OExists [100; 47; 107] false].
+Example C12_example_history_create_dir :
+  let '(S1, r) := fs_write ok_id ok_fs [100; 47; 110] [7] false in
+  r = FOk tt /\ Forall (op_elsewhere ok_fs [[100]; [110]]) ok_history /\
+  fs_read ok_id (fs_run ok_id ok_id S1 ok_history) [100; 47; 110] false = FOk [7] /\
+  fs_exists (fs_run ok_id ok_id S1 ok_history) [100; 47; 107] false = FOk true.
+Proof.
+  vm_compute. split; [reflexivity|]. split; [|split; reflexivity].
+  repeat constructor. intros s qq tr H. injection H as _ <- _. discriminate.
+Qed.
 
 (* exists / file_exists / directory_exists / resolve: the same top-down search over the same addressed location *)
 Theorem C12_queries_same_search : forall S p loc s a,
